@@ -1,6 +1,6 @@
 (* Non-vacuity: concrete graphs meeting the hypotheses of the C02 theorems. *)
 From V Require Import Common.Base C02.Graph C02.Order C02.SpecESM C02.Wrap C02.Resolve C02.ResolveSpec
-  C02.DataUrl C02.SpecDataUrl C02.OrderProofs C02.OrderEsmProofs C02.ResolveProofs C02.WrapProofs C02.DataUrlProofs C02.Emit C02.EmitProofs.
+  C02.DataUrl C02.SpecDataUrl C02.OrderProofs C02.OrderEsmProofs C02.ResolveProofs C02.WrapProofs C02.DataUrlProofs C02.Emit C02.EmitProofs C02.ResolveChainProofs.
 
 (* diamond with a back edge: 1 -> 2,3 ; 2 -> 4 ; 3 -> 4 ; 4 -> 1 (cycle); file 0 is the runtime *)
 Definition ex_graph : graph :=
@@ -89,3 +89,24 @@ Example ex_emit :
   exported_names names_of FEsm true [1; 2] [0%nat] = [1; 2] /\
   entry_stmts FCjs true [1; 2] [0%nat] = [XExport [1; 2]; XAssignModuleExports; XReExport 0 true].
 Proof. vm_compute. repeat split. Qed.
+
+(* star-free chain: e imports {x, ns, q} from a; a re-exports x from b as x, b re-exports y from c as x,
+   c defines y; a also has "export * as ns from c" and nothing named q *)
+Definition ex_chain : graph :=
+  [ empty_module;
+    esm_mod [rec_to 2; rec_to 2; rec_to 2] [imp 1 1 0; imp 2 5 1; imp 3 6 2] [] [] true;
+    esm_mod [rec_to 3; rec_to 4] [imp 7 1 0; mkImp 8 0 true 1 None false true] [(1, 7%nat); (5, 8%nat)] [] false;
+    esm_mod [rec_to 4] [imp 7 2 0] [(1, 7%nat)] [] false;
+    esm_mod [] [] [(2, 0%nat)] [] false ].
+Definition ex_chain_rank : list nat := [0; 9; 3; 2; 1]%nat.
+Example ex_chain_scope : chain_scope ex_chain ex_chain_rank = true.
+Proof. vm_compute. reflexivity. Qed.
+Example ex_chain_verdicts :
+  let kinds := fun _ : nat => EESM in
+  map (fun ni => option_map (fun p => mres_verdict (fst p) (snd p))
+                   (match_import ex_chain kinds (resolved_of ex_chain kinds) true (1%nat, ni_ref ni)))
+      (m_imports (getm ex_chain 1))
+  = [Some (VFound 4 0); Some (VFound 4 99); Some VNull]
+  /\ map (spec_verdict ex_chain 1) (m_imports (getm ex_chain 1))
+  = [Some (VFound 4 0); Some (VFound 4 99); Some VNull].
+Proof. vm_compute. split; reflexivity. Qed.
